@@ -62,7 +62,7 @@ Proof. induction 1; intros HQ; cbn; [reflexivity|]. rewrite (HQ _ _ H). f_equal.
 Definition snrFor (mode : mpdType) (a : asIn) : option Z :=
   match mode with MTimelineNr => a_startNr a | _ => None end.
 
-Lemma splitAS_not_err mode cont snr k P a e : splitAS mode cont snr k P a <> Err e.
+Lemma splitAS_not_err mode cont snr k P a e : splitAS false mode cont snr k P a <> Err e.
 Proof.
   unfold splitAS. destruct (templateType mode a).
   - destruct (a_dur a); [|discriminate]. destruct (_ =? 0); discriminate.
@@ -71,7 +71,7 @@ Proof.
 Qed.
 
 Lemma splitAS_common mode cont snr k P a o :
-  splitAS mode cont snr k P a = Ok o -> o_pto o = u64 (k * P * tsOf a) /\ o_cont o = cont.
+  splitAS false mode cont snr k P a = Ok o -> o_pto o = u64 (k * P * tsOf a) /\ o_cont o = cont.
 Proof.
   unfold splitAS. fold (tsOf a). destruct (templateType mode a).
   - destruct (a_dur a); [|discriminate]. destruct (_ =? 0); [discriminate|].
@@ -83,7 +83,7 @@ Proof.
 Qed.
 
 Lemma splitAS_number mode cont snr k P a o :
-  templateType mode a = MNumber -> splitAS mode cont snr k P a = Ok o ->
+  templateType mode a = MNumber -> splitAS false mode cont snr k P a = Ok o ->
   exists d, a_dur a = Some d /\ d <> 0 /\
             o_startNr o = Some (u32 (Z.quot (k * P * tsOf a) d + snr)) /\ o_tl o = a_tl a.
 Proof.
@@ -93,7 +93,7 @@ Proof.
 Qed.
 
 Lemma splitAS_timeline mode cont snr k P a o :
-  templateType mode a <> MNumber -> splitAS mode cont snr k P a = Ok o ->
+  templateType mode a <> MNumber -> splitAS false mode cont snr k P a = Ok o ->
   exists es, a_tl a = Some es /\
     o_tl o = Some (map ofEntry (fst (reduceS es (snrFor mode a) (tsOf a) (u64 (k * P)) (u64 ((k + 1) * P))))) /\
     o_startNr o = match mode with
@@ -115,15 +115,15 @@ Qed.
 (** * splitPeriod: structure of the result *)
 
 Lemma periodOf_ok mode cont snr P ases k p :
-  periodOf mode cont snr P ases k = Ok p ->
+  periodOf false mode cont snr P ases k = Ok p ->
   pd_nr p = k /\ pd_start p = k * P /\
-  Forall2 (fun a o => splitAS mode cont snr k P a = Ok o) ases (pd_as p).
+  Forall2 (fun a o => splitAS false mode cont snr k P a = Ok o) ases (pd_as p).
 Proof.
   unfold periodOf. destruct (mapM _ ases) eqn:E; cbn; try discriminate.
   intros H; inversion H; subst; cbn. repeat split; auto. now apply mapM_ok.
 Qed.
 
-Lemma periodOf_not_err mode cont snr P ases k e : periodOf mode cont snr P ases k <> Err e.
+Lemma periodOf_not_err mode cont snr P ases k e : periodOf false mode cont snr P ases k <> Err e.
 Proof.
   unfold periodOf. destruct (mapM _ ases) eqn:E; cbn; try discriminate.
   exfalso. revert E. apply mapM_not_err. intros; apply splitAS_not_err.
@@ -144,14 +144,14 @@ Proof. unfold periodDurOf. intros. split; [apply Z.div_le_lower_bound; lia|apply
     ([k0, k1] itself without the widening repair), id P<k>, start k*P. *)
 Theorem splitPeriod_structure_gen w pph seg mode cont ast snr st now ases ps :
   1 <= pph <= 3600 -> 0 < seg -> ast <= st -> ast <= now ->
-  splitPeriod w pph seg mode cont ast snr st now ases = Ok ps ->
+  splitPeriod false w pph seg mode cont ast snr st now ases = Ok ps ->
   let P := periodDurOf pph in
   let k0 := (st - ast) / (P * 1000) in
   let k1 := (now - ast) / (P * 1000) in
   (P * 1000) mod seg = 0 /\
   exists ka kb, rangeOf w mode P ases k0 k1 = Ok (ka, kb) /\
   Forall2 (fun k p => pd_nr p = k /\ pd_start p = k * P /\
-                      Forall2 (fun a o => splitAS mode cont snr k P a = Ok o) ases (pd_as p))
+                      Forall2 (fun a o => splitAS false mode cont snr k P a = Ok o) ases (pd_as p))
           (seqZ ka (Z.to_nat (kb - ka + 1))) ps.
 Proof.
   intros Hpph Hseg Hst Hnow H P k0 k1.
@@ -173,13 +173,13 @@ Qed.
 
 Theorem splitPeriod_structure pph seg mode cont ast snr st now ases ps :
   1 <= pph <= 3600 -> 0 < seg -> ast <= st -> ast <= now ->
-  splitPeriod false pph seg mode cont ast snr st now ases = Ok ps ->
+  splitPeriod false false pph seg mode cont ast snr st now ases = Ok ps ->
   let P := periodDurOf pph in
   let k0 := (st - ast) / (P * 1000) in
   let k1 := (now - ast) / (P * 1000) in
   (P * 1000) mod seg = 0 /\
   Forall2 (fun k p => pd_nr p = k /\ pd_start p = k * P /\
-                      Forall2 (fun a o => splitAS mode cont snr k P a = Ok o) ases (pd_as p))
+                      Forall2 (fun a o => splitAS false mode cont snr k P a = Ok o) ases (pd_as p))
           (seqZ k0 (Z.to_nat (k1 - k0 + 1))) ps.
 Proof.
   intros Hpph Hseg Hst Hnow H P k0 k1.
@@ -203,7 +203,7 @@ Proof. unfold rangeOf. destruct (_ && _); [apply widenRange_not_err|discriminate
 Theorem splitPeriod_reject w pph seg mode cont ast snr st now ases :
   1 <= pph <= 3600 -> 0 < seg ->
   ((periodDurOf pph * 1000) mod seg <> 0 <->
-   exists e, splitPeriod w pph seg mode cont ast snr st now ases = Err e).
+   exists e, splitPeriod false w pph seg mode cont ast snr st now ases = Err e).
 Proof.
   intros Hpph Hseg.
   pose proof (periodDur_pos pph Hpph) as HP.
@@ -223,11 +223,11 @@ Proof.
 Qed.
 
 Theorem splitPeriod_pph_zero w seg mode cont ast snr st now ases :
-  splitPeriod w 0 seg mode cont ast snr st now ases = Panic "splitPeriod: integer divide by zero".
+  splitPeriod false w 0 seg mode cont ast snr st now ases = Panic "splitPeriod: integer divide by zero".
 Proof. reflexivity. Qed.
 
 Theorem splitPeriod_pph_big w pph seg mode cont ast snr st now ases :
-  3600 < pph -> splitPeriod w pph seg mode cont ast snr st now ases = Panic "splitPeriod: integer divide by zero".
+  3600 < pph -> splitPeriod false w pph seg mode cont ast snr st now ases = Panic "splitPeriod: integer divide by zero".
 Proof.
   intros H. unfold splitPeriod.
   replace (pph =? 0) with false by lia.
@@ -322,7 +322,7 @@ Qed.
 Lemma partition_range mode cont snr ases ps j a es P ka kb :
   1 <= P -> 0 <= ka <= kb ->
   Forall2 (fun k p => pd_nr p = k /\ pd_start p = k * P /\
-                      Forall2 (fun a o => splitAS mode cont snr k P a = Ok o) ases (pd_as p))
+                      Forall2 (fun a o => splitAS false mode cont snr k P a = Ok o) ases (pd_as p))
           (seqZ ka (Z.to_nat (kb - ka + 1))) ps ->
   nth_error ases j = Some a -> templateType mode a <> MNumber -> a_tl a = Some es ->
   let ts := tsOf a in
@@ -377,7 +377,7 @@ Qed.
 
 Theorem splitPeriod_partition pph seg mode cont ast snr st now ases ps j a es :
   1 <= pph <= 3600 -> 0 < seg -> ast <= st <= now ->
-  splitPeriod false pph seg mode cont ast snr st now ases = Ok ps ->
+  splitPeriod false false pph seg mode cont ast snr st now ases = Ok ps ->
   nth_error ases j = Some a -> templateType mode a <> MNumber -> a_tl a = Some es ->
   let P := periodDurOf pph in
   let k0 := (st - ast) / (P * 1000) in
@@ -430,7 +430,7 @@ Qed.
 
 Theorem splitPeriod_exactly_one pph seg mode cont ast snr st now ases ps j a es :
   1 <= pph <= 3600 -> 0 < seg -> ast <= st <= now ->
-  splitPeriod false pph seg mode cont ast snr st now ases = Ok ps ->
+  splitPeriod false false pph seg mode cont ast snr st now ases = Ok ps ->
   nth_error ases j = Some a -> templateType mode a <> MNumber -> a_tl a = Some es ->
   let P := periodDurOf pph in
   let k0 := (st - ast) / (P * 1000) in
@@ -469,8 +469,8 @@ Qed.
 (** ids and starts are a function of k only: stable over time *)
 Theorem splitPeriod_ids_stable pph seg mode cont ast snr st1 now1 st2 now2 ases1 ases2 ps1 ps2 p1 p2 :
   1 <= pph <= 3600 -> 0 < seg -> ast <= st1 -> ast <= now1 -> ast <= st2 -> ast <= now2 ->
-  splitPeriod false pph seg mode cont ast snr st1 now1 ases1 = Ok ps1 ->
-  splitPeriod false pph seg mode cont ast snr st2 now2 ases2 = Ok ps2 ->
+  splitPeriod false false pph seg mode cont ast snr st1 now1 ases1 = Ok ps1 ->
+  splitPeriod false false pph seg mode cont ast snr st2 now2 ases2 = Ok ps2 ->
   In p1 ps1 -> In p2 ps2 ->
   pd_start p1 = pd_nr p1 * periodDurOf pph /\
   (pd_nr p1 = pd_nr p2 <-> pd_start p1 = pd_start p2).
@@ -480,7 +480,7 @@ Proof.
   destruct (splitPeriod_structure _ _ _ _ _ _ _ _ _ _ Hpph Hseg H1 H2 S1) as [_ F1].
   destruct (splitPeriod_structure _ _ _ _ _ _ _ _ _ _ Hpph Hseg H3 H4 S2) as [_ F2].
   assert (Q : forall l ps q, Forall2 (fun k p => pd_nr p = k /\ pd_start p = k * periodDurOf pph /\
-                 Forall2 (fun a o => splitAS mode cont snr k (periodDurOf pph) a = Ok o) l (pd_as p)) 
+                 Forall2 (fun a o => splitAS false mode cont snr k (periodDurOf pph) a = Ok o) l (pd_as p)) 
                  (seqZ (fst q) (snd q)) ps -> forall p, In p ps -> pd_start p = pd_nr p * periodDurOf pph).
   { intros l ps q F. induction F as [|k q' la lb [Hk [Hs _]] _ IH]; intros p Hp; [destruct Hp|].
     destruct Hp as [<-|Hp]; [lia|auto]. }
@@ -493,7 +493,7 @@ Qed.
     start to the period containing now *)
 Theorem splitPeriod_tiles pph seg mode cont ast snr st now ases ps :
   1 <= pph <= 3600 -> 0 < seg -> ast <= st <= now ->
-  splitPeriod false pph seg mode cont ast snr st now ases = Ok ps ->
+  splitPeriod false false pph seg mode cont ast snr st now ases = Ok ps ->
   let P := periodDurOf pph in
   let k0 := (st - ast) / (P * 1000) in
   let k1 := (now - ast) / (P * 1000) in
@@ -570,7 +570,7 @@ Proof.
 Qed.
 
 Theorem number_mode_aligned mode cont snr k P a o d :
-  templateType mode a = MNumber -> splitAS mode cont snr k P a = Ok o -> a_dur a = Some d ->
+  templateType mode a = MNumber -> splitAS false mode cont snr k P a = Ok o -> a_dur a = Some d ->
   0 <= k -> 0 < P -> 0 < tsOf a -> 0 < d -> (P * tsOf a) mod d = 0 -> 0 <= snr ->
   k * P * tsOf a < two64 -> k * (P * tsOf a / d) + snr < two32 ->
   exists n, o_startNr o = Some n /\ n = snr + k * (P * tsOf a / d) /\ (n - snr) * d = k * P * tsOf a /\
@@ -618,12 +618,12 @@ Qed.
 (** * publishTime in $Number$ mode *)
 
 Lemma splitPeriod_number_widen w pph seg cont ast snr st now ases :
-  splitPeriod w pph seg MNumber cont ast snr st now ases = splitPeriod false pph seg MNumber cont ast snr st now ases.
+  splitPeriod false w pph seg MNumber cont ast snr st now ases = splitPeriod false false pph seg MNumber cont ast snr st now ases.
 Proof. unfold splitPeriod, rangeOf. now rewrite andb_false_r. Qed.
 
 Theorem livePeriods_publish w loopMS c now tsbdMS pph seg cont ases ps pt :
   1 <= pph <= 3600 -> 0 < seg -> startS c * 1000 <= now -> 0 <= tsbdMS ->
-  livePeriods w loopMS c now tsbdMS pph seg MNumber cont ases = Ok (ps, pt) ->
+  livePeriods false w loopMS c now tsbdMS pph seg MNumber cont ases = Ok (ps, pt) ->
   pt = Some (startS c + (now - startS c * 1000) / (periodDurOf pph * 1000) * periodDurOf pph).
 Proof.
   intros Hpph Hseg Hs Ht H.
@@ -634,7 +634,7 @@ Proof.
   assert (Hst : startS c * 1000 <= startTimeMS wt <= now).
   { unfold wt, calcWrapTimes. cbn [startTimeMS]. destruct (now - tsbdMS <? startS c * 1000) eqn:E; lia. }
   rewrite splitPeriod_number_widen in H.
-  destruct (splitPeriod false pph seg MNumber cont (startS c * 1000) (startNr c) (startTimeMS wt) (wnowMS wt) ases) as [ps'| |] eqn:E; cbn in H; try discriminate.
+  destruct (splitPeriod false false pph seg MNumber cont (startS c * 1000) (startNr c) (startTimeMS wt) (wnowMS wt) ases) as [ps'| |] eqn:E; cbn in H; try discriminate.
   rewrite Hw in E.
   destruct (splitPeriod_tiles pph seg MNumber cont (startS c * 1000) (startNr c) (startTimeMS wt) now ases ps' Hpph Hseg Hst E) as (_ & Hstarts & Hle & _).
   unfold lastPeriodStartTime in H.
@@ -649,14 +649,30 @@ Proof.
   cbn in H. inversion H. f_equal. rewrite Hp. f_equal. f_equal. lia.
 Qed.
 
+(** With the repair "guard per adaptation set" a $Number$ template is only split when the period is a
+    whole number of ITS segments: the alignment hypothesis of [number_mode_aligned] is then
+    established by the code; otherwise the typed error is returned. *)
+Lemma splitAS_guard mode cont snr k P a d :
+  templateType mode a = MNumber -> a_dur a = Some d -> 0 < d -> 0 <= P * tsOf a ->
+  (forall o, splitAS true mode cont snr k P a = Ok o -> (P * tsOf a) mod d = 0) /\
+  ((P * tsOf a) mod d <> 0 -> splitAS true mode cont snr k P a = Err rejectMsg).
+Proof.
+  intros Hm Hd Hpos Hnn. unfold splitAS. rewrite Hm, Hd. fold (tsOf a).
+  replace (d =? 0) with false by lia. replace (0 <? d) with true by lia. cbn [andb].
+  rewrite (rem_pos (P * tsOf a) d) by lia.
+  destruct ((P * tsOf a) mod d =? 0) eqn:E; cbn [negb].
+  - split; [intros; lia|intros; lia].
+  - split; [intros o Ho; discriminate|reflexivity].
+Qed.
+
 (** * Stop time: the period layout is frozen from the stop time on *)
 
-Theorem stop_frozen w loopMS c now1 now2 s tsbdMS pph seg mode cont ases :
+Theorem stop_frozen g w loopMS c now1 now2 s tsbdMS pph seg mode cont ases :
   s * 1000 <= now1 -> s * 1000 <= now2 ->
-  livePeriodsStop w loopMS c now1 (Some s) tsbdMS pph seg mode cont ases =
-  livePeriodsStop w loopMS c now2 (Some s) tsbdMS pph seg mode cont ases /\
-  livePeriodsStop w loopMS c now1 (Some s) tsbdMS pph seg mode cont ases =
-  livePeriods w loopMS c (s * 1000) tsbdMS pph seg mode cont ases.
+  livePeriodsStop g w loopMS c now1 (Some s) tsbdMS pph seg mode cont ases =
+  livePeriodsStop g w loopMS c now2 (Some s) tsbdMS pph seg mode cont ases /\
+  livePeriodsStop g w loopMS c now1 (Some s) tsbdMS pph seg mode cont ases =
+  livePeriods g w loopMS c (s * 1000) tsbdMS pph seg mode cont ases.
 Proof.
   intros H1 H2. unfold livePeriodsStop, liveEndMS.
   assert (E : forall n, s * 1000 <= n -> (if s * 1000 <? n then s * 1000 else n) = s * 1000)
@@ -664,10 +680,10 @@ Proof.
   rewrite (E now1 H1), (E now2 H2). split; reflexivity.
 Qed.
 
-Theorem stop_before w loopMS c now s tsbdMS pph seg mode cont ases :
+Theorem stop_before g w loopMS c now s tsbdMS pph seg mode cont ases :
   now <= s * 1000 ->
-  livePeriodsStop w loopMS c now (Some s) tsbdMS pph seg mode cont ases =
-  livePeriods w loopMS c now tsbdMS pph seg mode cont ases.
+  livePeriodsStop g w loopMS c now (Some s) tsbdMS pph seg mode cont ases =
+  livePeriods g w loopMS c now tsbdMS pph seg mode cont ases.
 Proof.
   intros H. unfold livePeriodsStop, liveEndMS. replace (s * 1000 <? now) with false by lia. reflexivity.
 Qed.
@@ -678,7 +694,7 @@ Qed.
     outside 1..3600 is refused before splitPeriod is reached. *)
 Theorem livePeriods_pph_range w loopMS c now tsbdMS pph seg mode cont ases :
   pph <= 0 \/ 3600 < pph ->
-  livePeriods w loopMS c now tsbdMS pph seg mode cont ases = Err pphRangeMsg.
+  livePeriods false w loopMS c now tsbdMS pph seg mode cont ases = Err pphRangeMsg.
 Proof. intros H. unfold livePeriods. replace ((pph <=? 0) || (3600 <? pph)) with true by lia. reflexivity. Qed.
 
 (** Inside the range, for an accepted value and AdaptationSets as LiveMPD hands them over (a
@@ -690,10 +706,10 @@ Definition wellShaped (mode : mpdType) (a : asIn) : Prop :=
   | _ => a_tl a <> None
   end.
 
-Lemma splitAS_total mode cont snr k P a : wellShaped mode a -> exists o, splitAS mode cont snr k P a = Ok o.
+Lemma splitAS_total mode cont snr k P a : wellShaped mode a -> exists o, splitAS false mode cont snr k P a = Ok o.
 Proof.
   unfold wellShaped, splitAS. destruct (templateType mode a).
-  - intros (d & -> & Hd). replace (d =? 0) with false by lia. eauto.
+  - intros (d & -> & Hd). replace (d =? 0) with false by lia. cbn [andb]. eauto.
   - destruct (a_tl a); [|congruence]. intros _. destruct (reduceS _ _ _ _ _). eauto.
   - destruct (a_tl a); [|congruence]. intros _. destruct (reduceS _ _ _ _ _). eauto.
 Qed.
@@ -708,7 +724,7 @@ Qed.
 Theorem splitPeriod_total pph seg mode cont ast snr st now ases :
   1 <= pph <= 3600 -> 0 < seg -> (periodDurOf pph * 1000) mod seg = 0 -> ast <= st <= now ->
   Forall (wellShaped mode) ases ->
-  exists ps, splitPeriod false pph seg mode cont ast snr st now ases = Ok ps.
+  exists ps, splitPeriod false false pph seg mode cont ast snr st now ases = Ok ps.
 Proof.
   intros Hpph Hseg Hacc Hst Hws.
   pose proof (periodDur_pos pph Hpph) as HP.
@@ -724,7 +740,7 @@ Proof.
   unfold rangeOf. cbn [andb bind fst snd].
   match goal with |- context [if ?c then _ else _] => replace c with false by lia end.
   apply mapM_total. intros k _. unfold periodOf.
-  destruct (mapM_total (splitAS mode cont snr k (periodDurOf pph)) ases) as [out ->]; [|cbn; eauto].
+  destruct (mapM_total (splitAS false mode cont snr k (periodDurOf pph)) ases) as [out ->]; [|cbn; eauto].
   intros a Ha. apply splitAS_total. rewrite Forall_forall in Hws. now apply Hws.
 Qed.
 
@@ -749,7 +765,7 @@ Proof.
 Qed.
 
 Theorem reject_2997 w pph mode cont ast snr st now ases :
-  1 <= pph <= 3600 -> exists e, splitPeriod w pph 2002 mode cont ast snr st now ases = Err e.
+  1 <= pph <= 3600 -> exists e, splitPeriod false w pph 2002 mode cont ast snr st now ases = Err e.
 Proof.
   intros Hp. apply (splitPeriod_reject w pph 2002 mode cont ast snr st now ases Hp ltac:(lia)).
   now apply no_period_fits_2002.
@@ -761,7 +777,7 @@ Qed.
 Definition atoTL : list pS := [ {| p_t := Some 0; p_d := 180000; p_r := 30 |} ].
 Lemma late_segment_witness :
   existsb (fun x => fst x =? 5400000) (expandP atoTL) = true /\
-  splitPeriod false 60 2000 MTimelineTime false 0 0 0 59000
+  splitPeriod false false 60 2000 MTimelineTime false 0 0 0 59000
     [ {| a_image := false; a_ts := Some 90000; a_dur := None; a_startNr := None; a_tl := Some atoTL |} ] =
   Ok [ {| pd_nr := 0; pd_start := 0;
           pd_as := [ {| o_pto := 0; o_startNr := None; o_tl := Some [ {| p_t := Some 0; p_d := 180000; p_r := 29 |} ]; o_cont := false |} ] |} ].
@@ -770,7 +786,7 @@ Proof. split; vm_compute; reflexivity. Qed.
 (** $Number$ mode with start number 5 and availabilityStartTime 1000 s: period k (counted from
     availabilityStartTime) gets 5 + k*P*ts/d. *)
 Lemma snr_start_example :
-  splitPeriod false 60 2000 MNumber false 1000000 5 1060500 1120500
+  splitPeriod false false 60 2000 MNumber false 1000000 5 1060500 1120500
     [ {| a_image := false; a_ts := None; a_dur := Some 2; a_startNr := Some 5; a_tl := None |} ] =
   Ok [ {| pd_nr := 1; pd_start := 60; pd_as := [ {| o_pto := 60; o_startNr := Some 35; o_tl := None; o_cont := false |} ] |};
        {| pd_nr := 2; pd_start := 120; pd_as := [ {| o_pto := 120; o_startNr := Some 65; o_tl := None; o_cont := false |} ] |} ].
